@@ -14,6 +14,7 @@ Import ListNotations.
 Local Open Scope nat_scope.
 
 Arguments reward : simpl never.
+Arguments reward_raises : simpl never.
 Arguments better : simpl never.
 Arguments RLProto.choose : simpl never.
 Arguments RLProto.m_head : simpl never.
@@ -131,6 +132,7 @@ Section Proofs.
     - inversion E; subst. apply fifo_put; auto.
     - destruct (oq s) as [|[[b src]|] q]; try discriminate.
       + destruct (cbl s); [|inversion E; subst; exact H].
+        destruct (reward_raises q0 b); [inversion E; subst; exact H|].
         destruct (reward q0 b) as [rw c']. inversion E; subst; clear E. unfold fifo.
         match goal with |- context [choose ?x] => destruct (choose_fields x) as (_ & _ & _ & _ & _ & _ & Ha' & _ & _ & _ & _ & Hs' & Hg' & _) end.
         rewrite Ha', Hs', Hg'. simpl. exact H.
@@ -145,6 +147,7 @@ Section Proofs.
     - inversion E; subst. apply fifo_put; auto.
     - destruct (oq s) as [|[[b src]|] q]; try discriminate.
       + destruct (cbl s); [|inversion E; subst; exact H].
+        destruct (reward_raises q0 b); [inversion E; subst; exact H|].
         destruct (reward q0 b) as [rw c']. inversion E; subst; clear E. exact H.
       + inversion E; subst. exact H.
   Qed.
@@ -203,6 +206,7 @@ Section Proofs.
     - inversion E; subst; clear E. simpl. repeat split; auto. apply Forall_app; split; auto.
     - destruct (oq s) as [|[[b src]|] q]; try discriminate.
       + destruct (cbl s); [|inversion E; subst; simpl; auto].
+        destruct (reward_raises q0 b); [inversion E; subst; simpl; auto|].
         destruct (reward q0 b) as [rw c']. inversion E; subst; clear E.
         match goal with |- context [choose ?x] => destruct (choose_fields x) as (_ & _ & _ & _ & _ & _ & Ha' & _ & _ & Hx & _ & _ & _ & Hv) end.
         rewrite Ha', Hx. simpl. auto.
@@ -217,6 +221,7 @@ Section Proofs.
     - inversion E; subst; clear E. simpl. repeat split; auto. apply Forall_app; split; auto.
     - destruct (oq s) as [|[[b src]|] q]; try discriminate.
       + destruct (cbl s); [|inversion E; subst; simpl; auto].
+        destruct (reward_raises q0 b); [inversion E; subst; simpl; auto|].
         destruct (reward q0 b) as [rw c']. inversion E; subst; clear E. simpl. auto.
       + inversion E; subst. simpl. auto.
   Qed.
@@ -256,6 +261,50 @@ Section Proofs.
   Proof. reflexivity. Qed.
   Lemma exch_false : forall b a ex, exch ((b, a, false) :: ex) = exch ex.
   Proof. reflexivity. Qed.
+
+  (* running best loss: bm k = min (loss 0 .. loss k), the first minimum being kept (strict < in update) *)
+  Fixpoint bm (k : nat) : Q := match k with 0 => loss 0 | S j => better (bm j) (loss (S j)) end.
+  Lemma reward_snd_better : forall c l, snd (reward c (better c l)) = better c l.
+  Proof.
+    intros c l. unfold reward, better. destruct (Qle_bool c l) eqn:E.
+    - assert (Qle_bool c c = true) by (apply Qle_bool_iff; apply Qle_refl). rewrite H. reflexivity.
+    - rewrite E. reflexivity.
+  Qed.
+
+  (* sufficient: losses that are never negative (all built-in loss functions) *)
+  Lemma bm_nonneg : (forall k, 0 <= loss k)%Q -> forall k, (0 <= bm k)%Q.
+  Proof.
+    intros Hl k. induction k as [|k IH]; simpl; [apply Hl|]. unfold better. destruct (Qle_bool (bm k) (loss (S k))); [exact IH | apply Hl].
+  Qed.
+  Lemma nonneg_losses_reward_defined : (forall k, 0 <= loss k)%Q -> forall k, reward_raises (bm k) (bm (S k)) = false.
+  Proof.
+    intros Hl k. unfold reward_raises. destruct (Qle_bool (bm k) (bm (S k))) eqn:E1; [reflexivity|]. simpl.
+    destruct (Qeq_bool (bm k) 0) eqn:E2; [|reflexivity]. exfalso.
+    apply Qeq_bool_iff in E2. assert (H1 : (bm k <= bm (S k))%Q) by (rewrite E2; apply bm_nonneg; exact Hl).
+    apply Qle_bool_iff in H1. congruence.
+  Qed.
+  (* ... or a running best that never is exactly 0 *)
+  Lemma nonzero_best_reward_defined : (forall k, ~ bm k == 0)%Q -> forall k, reward_raises (bm k) (bm (S k)) = false.
+  Proof.
+    intros Hz k. unfold reward_raises. destruct (Qeq_bool (bm k) 0) eqn:E2; [|apply andb_false_r].
+    apply Qeq_bool_iff in E2. destruct (Hz k E2).
+  Qed.
+
+  (* The reward is defined at every batch: no loss improves on a running best that is exactly 0 (mab.py:46 divides by it). *)
+  Hypothesis reward_defined : forall k, reward_raises (bm k) (bm (S k)) = false.
+
+  (* The numbers in flight: M's best loss is the running minimum of the batches done; the environment's reference loss is
+     the same number, except while an outcome is queued - then it is the running minimum one batch earlier. *)
+  Definition sync (be cb : option Q) (bi : nat) : Prop :=
+    match be with
+    | None => bi = 0
+    | Some b0 => exists k0, bi = S k0 /\ b0 = bm k0 /\ cb = Some (bm k0)
+    end.
+  Definition Num (s : state) : Prop :=
+    match oq s with
+    | Some (b, _) :: _ => exists k0, bidx s = S (S k0) /\ cbl s = Some (bm k0) /\ b = bm (S k0) /\ best s = Some (bm (S k0))
+    | _ => sync (best s) (cbl s) (bidx s)
+    end.
 
   (* where M is inside a session, with the batches left, the flag, its best loss and what it has appended to the
      outcome queue behind the outcome in flight *)
@@ -326,9 +375,9 @@ Section Proofs.
     seq_batches k a (mksq AS st' (Some (loss bi)) (Some (loss bi)) (S bi) ((bi, halton, false) :: ex) le).
   Proof. intros. unfold RLProto.seq_session. simpl q_ast. rewrite H. reflexivity. Qed.
 
-  Lemma inv_step : forall F s t s', Inv F s -> stepN s t = Some s' -> Inv F s'.
+  Lemma inv_step : forall F s t s', Inv F s -> Num s -> stepN s t = Some s' -> Inv F s'.
   Proof.
-    intros F s t s' [Hok Hsh] E. inversion Hsh; subst; clear Hsh; destruct t; simpl in E.
+    intros F s t s' [Hok Hsh] Hn E. inversion Hsh; subst; clear Hsh; destruct t; simpl in E.
     - (* idle, M *)
       simpl in Hok. inversion H; subst; unfold RLProto.m_step in E; simpl in E.
       + inversion E; subst; clear E. split; [exact Hok | apply S_idle; auto; constructor].
@@ -375,7 +424,10 @@ Section Proofs.
       simpl in Hok. inversion H; subst; unfold RLProto.m_step in E; simpl in E; try discriminate;
         inversion E; subst; clear E; (split; [exact Hok|]); apply S_p4; auto; constructor.
     - (* p4, A *)
-      simpl in Hok. unfold RLProto.a_step in E. simpl in E. destruct (reward c b) as [r c'].
+      simpl in Hok. unfold RLProto.a_step in E. simpl in E.
+      assert (Hrr : reward_raises c b = false).
+      { unfold Num in Hn; simpl in Hn. destruct Hn as (k0 & _ & Hc & Hb & _). inversion Hc; subst. apply reward_defined. }
+      rewrite Hrr in E. destruct (reward c b) as [r c'].
       rewrite choose_valid in E. simpl in E. pose proof (policy_valid (learn st a r)) as Hv.
       destruct (policy (learn st a r)) as [a' st']. simpl in *. inversion E; subst; clear E.
       split; [simpl; unfold okc; congruence|]. apply S_p1; auto.
@@ -392,8 +444,70 @@ Section Proofs.
     - (* final, A *) unfold RLProto.a_step in E. simpl in E. discriminate.
   Qed.
 
+  Ltac nm := unfold Num in *; simpl in *.
+  Lemma num_step : forall F s t s', Inv F s -> Num s -> stepN s t = Some s' -> Num s'.
+  Proof.
+    intros F s t s' [Hok Hsh] Hn E. inversion Hsh; subst; clear Hsh; destruct t; simpl in E.
+    - (* idle, M *)
+      inversion H; subst; unfold RLProto.m_step in E; simpl in E.
+      + inversion E; subst; clear E. nm. exact Hn.
+      + inversion E; subst; clear E. nm. exact Hn.
+      + unfold a_begin in E. rewrite choose_valid in E. simpl in E.
+        destruct (policy st) as [a st'] eqn:Ep. simpl in *.
+        unfold RLProto.m_head in E. simpl in E. destruct bl as [|k].
+        * inversion E; subst; clear E. nm. exact Hn.
+        * destruct be as [b0|].
+          -- inversion E; subst; clear E. nm. exact Hn.
+          -- destruct k; unfold RLProto.boot in E; simpl in E; inversion E; subst; clear E; nm; subst; exists 0; auto.
+    - unfold RLProto.a_step in E. simpl in E. discriminate.
+    - (* p1, M *)
+      inversion H; subst; unfold RLProto.m_step in E; simpl in E; try discriminate;
+        inversion E; subst; clear E; nm; exact Hn.
+    - (* p1, A *) unfold RLProto.a_step in E. simpl in E. inversion E; subst; clear E. nm. exact Hn.
+    - (* p2, M *)
+      inversion H; subst; unfold RLProto.m_step in E; simpl in E; try discriminate;
+        inversion E; subst; clear E; nm; exact Hn.
+    - (* p2, A *)
+      unfold RLProto.a_step in E. inversion H; subst; simpl in E; try discriminate.
+      inversion E; subst; clear E. nm. exact Hn.
+    - (* k3, M *)
+      unfold RLProto.m_step in E. simpl in E. unfold RLProto.m_head in E. simpl in E.
+      destruct k as [|k']; simpl in E; inversion E; subst; clear E; nm;
+        destruct Hn as (k0 & Hb & Hb0 & Hc); subst; exists k0; repeat split; auto.
+    - unfold RLProto.a_step in E. simpl in E. discriminate.
+    - (* p4, M *)
+      inversion H; subst; unfold RLProto.m_step in E; simpl in E; try discriminate;
+        inversion E; subst; clear E; nm; exact Hn.
+    - (* p4, A *)
+      unfold RLProto.a_step in E. simpl in E. unfold Num in Hn; simpl in Hn.
+      destruct Hn as (k0 & Hbi & Hc & Hb & Hbe). inversion Hc; subst. rewrite reward_defined in E.
+      change (better (bm k0) (loss (S k0))) with (bm (S k0)) in *.
+      destruct (reward (bm k0) (bm (S k0))) as [r c'] eqn:Er.
+      rewrite choose_valid in E. simpl in E. destruct (policy (learn st a r)) as [a' st']. simpl in *.
+      assert (Hc' : c' = bm (S k0)).
+      { change c' with (snd (r, c')). rewrite <- Er. simpl bm. apply reward_snd_better. }
+      inversion E; subst; clear E. inversion H; subst; nm; exists (S k0); auto.
+    - (* p5, M *) unfold RLProto.m_step in E. simpl in E. inversion E; subst; clear E. nm. exact Hn.
+    - unfold RLProto.a_step in E. simpl in E. discriminate.
+    - (* drain, M *)
+      unfold RLProto.m_step in E. simpl in E. unfold RLProto.next_session in E. simpl in E.
+      destruct se as [|n r]; inversion E; subst; clear E; nm; exact Hn.
+    - unfold RLProto.a_step in E. simpl in E. discriminate.
+    - unfold RLProto.m_step in E. simpl in E. discriminate.
+    - unfold RLProto.a_step in E. simpl in E. discriminate.
+  Qed.
+
+  Definition InvN (F : sq) (s : state) : Prop := Inv F s /\ Num s.
+  Lemma invN_step : forall F s t s', InvN F s -> stepN s t = Some s' -> InvN F s'.
+  Proof. intros F s t s' [HI Hn] E. split; [eapply inv_step | eapply num_step]; eauto. Qed.
+  Lemma invN_init : forall l a0, InvN (seq_sessions l (sq0 AS a0)) (init l a0).
+  Proof.
+    intros l a0. split; [apply inv_init|]. unfold init, RLProto.next_session. destruct l; unfold Num; simpl; reflexivity.
+  Qed.
+  Theorem invN_every_schedule : forall l a0 sigma, InvN (seq_sessions l (sq0 AS a0)) (runN sigma (init l a0)).
+  Proof. intros. apply run_inv; [|apply invN_init]. intros s t s' H E. eapply invN_step; eauto. Qed.
   Theorem inv_every_schedule : forall l a0 sigma, Inv (seq_sessions l (sq0 AS a0)) (runN sigma (init l a0)).
-  Proof. intros. apply run_inv; [|apply inv_init]. intros s t s' H E. eapply inv_step; eauto. Qed.
+  Proof. intros. apply invN_every_schedule. Qed.
 
   (* ---- consequences of the invariant, for one state *)
   Lemma inv_final_is_spec : forall F s, Inv F s -> is_final AS s = true -> sq_of AS s = F.
@@ -407,7 +521,7 @@ Section Proofs.
     - right. reflexivity.
     - inversion H0; subst; try (left; reflexivity). right. reflexivity.
     - left. reflexivity.
-    - right. unfold RLProto.a_step. simpl. destruct (reward c b). reflexivity.
+    - right. unfold RLProto.a_step. simpl. destruct (reward_raises c b); [reflexivity|]. destruct (reward c b). reflexivity.
     - left. reflexivity.
     - left. reflexivity.
   Qed.
@@ -460,15 +574,7 @@ Section Proofs.
   Proof. intros F s [_ H] Hf. inversion H; subst; try discriminate; try (inversion H0; subst; discriminate). simpl. assumption. Qed.
 
   (* ============================================================== Part 3: the sequential specification *)
-  (* running best loss: bm k = min (loss 0 .. loss k), the first minimum being kept (strict < in update) *)
-  Fixpoint bm (k : nat) : Q := match k with 0 => loss 0 | S j => better (bm j) (loss (S j)) end.
 
-  Lemma reward_snd_better : forall c l, snd (reward c (better c l)) = better c l.
-  Proof.
-    intros c l. unfold reward, better. destruct (Qle_bool c l) eqn:E.
-    - assert (Qle_bool c c = true) by (apply Qle_bool_iff; apply Qle_refl). rewrite H. reflexivity.
-    - rewrite E. reflexivity.
-  Qed.
 
   (* n-1, ..., 1, 0 *)
   Fixpoint down (n : nat) : list nat := match n with 0 => [] | S k => k :: down k end.
@@ -577,9 +683,9 @@ Section Proofs.
     | p => mcur p (bleft s) + acur s
     end.
 
-  Lemma mu_step : forall F s t s', Inv F s -> stepN s t = Some s' -> mu s' < mu s.
+  Lemma mu_step : forall F s t s', Inv F s -> Num s -> stepN s t = Some s' -> mu s' < mu s.
   Proof.
-    intros F s t s' [Hok Hsh] E. inversion Hsh; subst; clear Hsh; destruct t; simpl in E.
+    intros F s t s' [Hok Hsh] Hn E. inversion Hsh; subst; clear Hsh; destruct t; simpl in E.
     - (* idle, M *)
       inversion H; subst; unfold RLProto.m_step in E; simpl in E.
       + inversion E; subst; clear E. unfold mu; simpl. lia.
@@ -605,7 +711,10 @@ Section Proofs.
     - (* p4, M *)
       inversion H; subst; unfold RLProto.m_step in E; simpl in E; try discriminate;
         inversion E; subst; clear E; unfold mu, acur; simpl; lia.
-    - unfold RLProto.a_step in E. simpl in E. destruct (reward c b) as [r c'].
+    - unfold RLProto.a_step in E. simpl in E.
+      assert (Hrr : reward_raises c b = false).
+      { unfold Num in Hn; simpl in Hn. destruct Hn as (k0 & _ & Hc & Hb & _). inversion Hc; subst. apply reward_defined. }
+      rewrite Hrr in E. destruct (reward c b) as [r c'].
       rewrite choose_valid in E. simpl in E. inversion E; subst; clear E.
       inversion H; subst; unfold mu, acur; simpl; lia.
     - unfold RLProto.m_step in E. simpl in E. inversion E; subst; clear E. unfold mu, acur; simpl; lia.
@@ -618,27 +727,27 @@ Section Proofs.
   Qed.
 
   (* from every reachable state some schedule completes all sessions *)
-  Lemma can_complete : forall n F s, mu s < n -> Inv F s -> exists sigma, is_final AS (runN sigma s) = true.
+  Lemma can_complete : forall n F s, mu s < n -> InvN F s -> exists sigma, is_final AS (runN sigma s) = true.
   Proof.
-    induction n as [|n IH]; intros F s Hn HI; [lia|].
+    induction n as [|n IH]; intros F s Hn [HI HN]; [lia|].
     destruct (is_final AS s) eqn:Ef; [exists []; exact Ef|].
     destruct (inv_enabled F s HI Ef) as [He|He]; unfold enabled in He.
     - destruct (stepN s M) as [s'|] eqn:Es; [|discriminate].
-      destruct (IH F s') as [sg Hsg]; [pose proof (mu_step F s M s' HI Es); lia | eapply inv_step; eauto |].
+      destruct (IH F s') as [sg Hsg]; [pose proof (mu_step F s M s' HI HN Es); lia | eapply invN_step; [split|]; eauto |].
       exists (M :: sg). unfold run in *. simpl. unfold pick at 2. rewrite Es. exact Hsg.
     - destruct (stepN s A) as [s'|] eqn:Es; [|discriminate].
-      destruct (IH F s') as [sg Hsg]; [pose proof (mu_step F s A s' HI Es); lia | eapply inv_step; eauto |].
+      destruct (IH F s') as [sg Hsg]; [pose proof (mu_step F s A s' HI HN Es); lia | eapply invN_step; [split|]; eauto |].
       exists (A :: sg). unfold run in *. simpl. unfold pick at 2. rewrite Es. exact Hsg.
   Qed.
 
   (* no run is longer than mu: a schedule made of enabled picks only has at most mu(init) entries *)
   Fixpoint all_enabled (sigma : list tid) (s : state) : Prop :=
     match sigma with [] => True | t :: sg => match stepN s t with Some s' => all_enabled sg s' | None => False end end.
-  Lemma run_length_bounded : forall sigma F s, Inv F s -> all_enabled sigma s -> length sigma + mu (runN sigma s) <= mu s.
+  Lemma run_length_bounded : forall sigma F s, InvN F s -> all_enabled sigma s -> length sigma + mu (runN sigma s) <= mu s.
   Proof.
     induction sigma as [|t sg IH]; intros F s HI Hall; simpl; [lia|].
     simpl in Hall. unfold run. simpl. unfold pick at 2. destruct (stepN s t) as [s'|] eqn:Es; [|contradiction].
-    pose proof (mu_step F s t s' HI Es). assert (HI' : Inv F s') by (eapply inv_step; eauto).
+    pose proof (mu_step F s t s' (proj1 HI) (proj2 HI) Es). assert (HI' : InvN F s') by (eapply invN_step; eauto).
     specialize (IH F s' HI' Hall). unfold run in IH. lia.
   Qed.
 
@@ -711,12 +820,12 @@ Section Proofs.
 
     Theorem T_sessions_terminate : forall sigma, all_enabled sigma (init sessions a0) -> length sigma <= mu (init sessions a0).
     Proof.
-      intros sg H. pose proof (run_length_bounded sg _ _ (inv_init sessions a0) H). lia.
+      intros sg H. pose proof (run_length_bounded sg _ _ (invN_init sessions a0) H). lia.
     Qed.
 
     Theorem T_can_always_complete : forall sigma, exists sigma', is_final AS (reach (sigma ++ sigma')) = true.
     Proof.
-      intros sg. destruct (can_complete (S (mu (reach sg))) _ (reach sg) (Nat.lt_succ_diag_r _) (inv_every_schedule sessions a0 sg)) as [sg' H].
+      intros sg. destruct (can_complete (S (mu (reach sg))) _ (reach sg) (Nat.lt_succ_diag_r _) (invN_every_schedule sessions a0 sg)) as [sg' H].
       exists sg'. unfold run in *. rewrite fold_left_app. exact H.
     Qed.
   End Top.
@@ -770,6 +879,23 @@ Proof. vm_compute. repeat split. Qed.
    - the executed log is the same under all 39130 schedules of two sessions of two batches (greedy learner, optimistic
      initial values): the exchange is a Kahn network up to where the agent stops, so timing changes what is learnt
      and what is left over, not which samplers run. *)
+(* ---- the repaired protocol outside the hypothesis reward_defined: best loss exactly 0, then a negative loss.  The division
+   of mab.py:46 raises in the agent's thread; with a further batch in the session the calibration thread waits for ever
+   (no thread enabled, not final), without one the session ends with the marker left on the outcome queue and the last
+   chosen batch never learnt. *)
+Definition z_losses : list Q := [1; 0; -1; -2]%Q.
+Definition z_new := step cagent c_policy c_learn 2 1 (lossl z_losses).
+Definition z_run (sessions : list nat) (sigma : list tid) := run cagent z_new sigma (init cagent sessions w_agent).
+Fixpoint alt_sched (n : nat) : list tid := match n with O => [] | S k => M :: A :: alt_sched k end.
+Lemma zero_reference_deadlock : let s := z_run [4] (alt_sched 40) in
+  is_final cagent s = false /\ mask cagent z_new s = 0 /\ mpc s = MGet /\ apc s = AErr /\ cbl s = Some 0%Q /\ best s = Some (-1)%Q.
+Proof. vm_compute. repeat split; reflexivity. Qed.
+Lemma zero_reference_leftover : let s := z_run [3] (alt_sched 40) in
+  is_final cagent s = true /\ oq s = [None] /\ length (exch (executed s)) = 2 /\ length (learned s) = 1.
+Proof. vm_compute. repeat split; reflexivity. Qed.
+Lemma zero_reference_not_defined : reward_raises (bm (lossl z_losses) 1) (bm (lossl z_losses) 2) = true.
+Proof. vm_compute. reflexivity. Qed.
+
 Definition pairs_ok (s : state cagent) : bool :=
   forallb (fun e => match e with
                     | (a, _, Some b) => existsb (fun x => Nat.eqb (fst (fst x)) b && Nat.eqb (snd (fst x)) a && snd x) (executed s)
